@@ -330,7 +330,7 @@ def run(ctx):
     for j in range(nh):
         r = rng.fork()
         jobs.append((gen_history(r, r.range(3, nops), True), True, f"generated seed={ctx.seed} #{j}"))
-    for n in ([100, 101] if ctx.quick else [1, 99, 100, 101, 102, 150, 201]):
+    for n in ([93, 94] if ctx.quick else [1, 92, 93, 94, 95, 100, 101, 150, 201]):  # + 7 std modules: totals 100, 101 are the slice boundary
         jobs.append((gen_many_modules(rng.fork(), n), True, f"many-modules n={n}"))
 
     def work(job):
